@@ -1,5 +1,6 @@
 """Per-layer check pipelines.  Each pipeline is: MC (TLC on the model) -> Gen (TLC prints behaviours)
 -> harness replay on the real code -> Trace validation (TLC judges the recorded trace)."""
+import hashlib
 import json
 import os
 import time
@@ -24,9 +25,12 @@ def finish(prop, tier, seed, t0, mc, nbeh, behaviours_path, val, rule, nontrivia
     with open(behaviours_path) as f:
         for line in f:
             line = line.strip()
-            if not line or line in seen:
+            if not line:
                 continue
-            seen.add(line)
+            hsh = hashlib.blake2b(line.encode(), digest_size=12).digest()
+            if hsh in seen:
+                continue
+            seen.add(hsh)
             b = json.loads(line)
             if nontrivial_pred(b):
                 nontriv += 1
@@ -51,15 +55,21 @@ def finish(prop, tier, seed, t0, mc, nbeh, behaviours_path, val, rule, nontrivia
     if new:
         # smallest failing run first
         if behs is None:
-            behs = read_behaviours(behaviours_path)
-        new.sort(key=lambda vs: len(behs[vs[0]["run"] - 1]) if 0 < vs[0]["run"] <= len(behs) else 1 << 30)
+            # only the behaviours of the violating runs are needed
+            wanted = {v["run"] for v, _ in new}
+            behs = {}
+            with open(behaviours_path) as f:
+                for i, line in enumerate(f, start=1):
+                    if i in wanted:
+                        behs[i] = json.loads(line)
+        new.sort(key=lambda vs: len(behs.get(vs[0]["run"], [0] * (1 << 20))))
         shown = set()
         for v, sig in new:
             key = json.dumps(sig, sort_keys=True)
             if key in shown:
                 continue
             shown.add(key)
-            beh = behs[v["run"] - 1] if 0 < v["run"] <= len(behs) else None
+            beh = behs.get(v["run"])
             payload = dict(property=prop, layer=layer, behaviour=beh, clause=v["clause"], event=v["event"],
                            signature=sig, detail=v["detail"])
             if replay_extra:
@@ -265,9 +275,20 @@ def replay(prop, path, work):
     elif layer == "vec":
         run_harness(["vec-replay", beh, trace])
         val = vec_validate(trace, work)
+    elif layer == "adapters" and isinstance(payload["behaviour"], dict) and "kind" in payload["behaviour"]:
+        # a one-step case of the AdapterAlgo conformance run
+        run_harness(["algo", beh, trace])
+        c = os.path.join(work, "TraceAlgo.cfg")
+        write_cfg(c, spec="TraceSpec", constants=dict(TailLimitDecreaseUsesOldLimit=True), postcondition="TraceAccepted")
+        val = validate("TraceAlgo", c, trace, work, nchunks=1)
     elif layer == "adapters":
         run_harness(["adapters-replay", beh, trace])
         val = ad_validate(trace, work)
+    elif layer == "vecops":
+        run_harness(["vecops", beh, trace])
+        c = os.path.join(work, "TraceVecOps.cfg")
+        write_cfg(c, spec="TraceSpec", postcondition="TraceAccepted")
+        val = validate("TraceVecOps", c, trace, work, nchunks=1)
     elif layer == "lin":
         with open(beh, "w") as f:
             f.write(json.dumps(payload["behaviour"]) + "\n")
